@@ -179,3 +179,31 @@ Example C20_conc_conservation_nonvacuous :
   drops (sh x) = 4 /\ unknown (sh x) = 5 /\ stales (sh x) = 6 /\ noop (sh x) = 0.
 Proof. vm_compute. repeat split; reflexivity. Qed.
 Print Assumptions C20_conc_conservation_nonvacuous.
+
+(* ---------------------------------------------------------------- sequential histories (the model the
+   sequential correspondence executes): for EVERY operation list of a single client *)
+Theorem C20_seq_cap_and_reachability : forall c ops,
+  c_variant c = Repaired ->
+  let s := fst (seq_run c shared0 [] ops) in
+  (0 < c_cap c -> Z.of_nat (length (snapshot s)) <= c_cap c) /\
+  cnt s = Z.of_nat (length (smap s)) /\
+  (forall id, (id < length (hs s))%nat -> orphan s id = false).
+Proof. exact seq_props. Qed.
+Print Assumptions C20_seq_cap_and_reachability.
+
+(* Σ series + drops + unknown + stale = Σ emitted (mod 2^64), either variant *)
+Theorem C20_seq_conservation : forall c ops,
+  c_kind c <> KGauge ->
+  total (c_kind c) (fst (seq_run c shared0 [] ops)) mod M64 = prog_weight (c_kind c) ops mod M64.
+Proof. intros c ops Hk. rewrite (seq_run_cons c Hk ops shared0 []). reflexivity. Qed.
+Print Assumptions C20_seq_conservation.
+
+Example C20_seq_nonvacuous :
+  let ops := [OResolve tA; OEmitH 0 EAdd 18446744073709551615; OEmitH 0 EAdd 2; OResolve tB; OEmitH 1 EAdd 4;
+              OEmitT tC EAdd 5; OUnreg tA; OEmitH 0 EAdd 6; OResolve tB] in
+  let s := fst (seq_run (cfg_of Repaired 1) shared0 [] ops) in
+  length (snapshot s) = 1%nat /\ cnt s = 1 /\ drops s = 4 /\ unknown s = 5 /\ stales s = 6 /\
+  total KCounter s = 16 /\ prog_weight KCounter ops = 18446744073709551632 /\
+  fst (seq_run (cfg_of Defective 1) shared0 [] ops) = s.
+Proof. vm_compute. repeat split; reflexivity. Qed.
+Print Assumptions C20_seq_nonvacuous.
